@@ -770,7 +770,9 @@ def _stack_chunk(args):
             got = sorted(got)
             if bottom is not None:
                 # what lies below the bottom belongs to the caller: same objects, untouched
-                kept = len(stack) == bottom and all(a is b for a, b in zip(stack, objs)) and \
+                # (whether the bracket and what was above it are dropped here or by the caller is the callee's and
+                # the caller's business; what is below must be there, in place and unchanged)
+                kept = len(stack) >= bottom and all(a is b for a, b in zip(stack[:bottom], objs[:bottom])) and \
                     all(it.getattr(o, 'number') == dels[i]['n'] for i, o in enumerate(objs[:bottom]))
                 if not kept:
                     got = 'touches the delimiters below the stack bottom (left %d of %d)' % (len(stack), bottom)
@@ -945,6 +947,19 @@ def _char_class(c):
     return 'other'
 
 
+# texts with an inline link: the delimiters inside the link text are dealt with when the link is made and are gone
+# afterwards (CommonMark 6.3, "look for link or image": process emphasis on the text, then remove the delimiters) -
+# emphasis may enclose a link but cannot cross its boundary
+LINK_TEXTS = {
+    '*a [b*](u) c*': [(0, 13, 'Emphasis')],
+    '[*a](u)*': [],
+    '*[a*](u)': [],
+    '[*a*](u)': [(1, 4, 'Emphasis')],
+    '**[a](u)**': [(0, 10, 'Strong')],
+    '_a [b_](u)_': [(0, 11, 'Emphasis')],
+}
+
+
 def _scan_chunk(args):
     """Worker: fold find_core_tokens on each string of a chunk and compare with the specification."""
     model, strings = args
@@ -968,6 +983,8 @@ def _scan_chunk(args):
         want = []
         for oi, ur, ci, ul, k in spec_emphasis(dels):
             want.append((dels[oi]['start'] + dels[oi]['n'] - ur - k, dels[ci]['start'] + ul + k, 'Strong' if k == 2 else 'Emphasis'))
+        if text in LINK_TEXTS:
+            want = LINK_TEXTS[text]
         it = Interp(model, loop_bound=64, while_bound=64)
         it.reset_run(Oracle())
         try:
@@ -1002,6 +1019,7 @@ def rule_scan_fold(ctx, rep):
     for x, y, z in itertools.product(reps, reps[1:], reps):
         for r1, r2 in runs:
             texts.append(x + r1 + y + r2 + z)
+    texts += list(LINK_TEXTS)
     texts = list(dict.fromkeys(texts))
     chunks = [texts[i:i + 80] for i in range(0, len(texts), 80)]
     total, n_bad, shown = 0, 0, []
